@@ -3,7 +3,8 @@ import RrModel.Freshness
 import RrModel.Spec.C08
 import RrModel.Spec.C10
 import RrModel.Spec.C09Get
-/- streams: ccparse, fresh, httpdate, skipcache, kf.C10-a, kf.C10-b, kf.C08-a, kf.C08-b, kf.C09-a
+/- streams: ccparse, fresh, httpdate, skipcache, kf.C10-a (regression stream since the fix for
+   finding C10-a), kf.C10-b, kf.C08-a, kf.C08-b, kf.C09-a
    (C08, C10, the client-304 clause of C09) -/
 open Go Model Proto
 
@@ -37,12 +38,14 @@ def hCcparse : Handler := fun impl => do
     | _ :: _ :: _ :: dnc :: _ =>
       if Spec.C10.holds h (dnc == "1") then "ok" else "bad:C10:carried-directive-not-honoured"
     | _ => "na"
-  let inA := Spec.C10.inClass_C10_a h
+  -- HTAB in the optional white space of a carried directive: a label only (finding C10-a is repaired,
+  -- there is no class for it any more: a missed directive there is an ordinary violation)
+  let htab := Spec.C10.htabAroundDirective h
   let inB := Spec.C10.inClass_C10_b h
-  let cls := joinCls ((if inA then ["C10-a"] else []) ++ (if inB then ["C10-b"] else []))
+  let cls := joinCls (if inB then ["C10-b"] else [])
   let label :=
     if Spec.C10.carriesAny h then
-      "carries" ++ (if inA then ":htab" else "") ++ (if inB then ":dup" else "") ++ (if d.doNotCache then "" else ":missed")
+      "carries" ++ (if htab then ":htab" else "") ++ (if inB then ":dup" else "") ++ (if d.doNotCache then "" else ":missed")
     else if d.doNotCache then "lenient-dnc"
     else if (h.values b!"cache-control").isEmpty then "no-cc"
     else if d.maxAge.isSome || d.sMaxAge.isSome then "cacheable:lifetime"
